@@ -86,6 +86,11 @@ func emit(k int, c *vcase) vres {
 
 func seenKey(c *vcase) string {
 	h := fnv.New64a()
+	for _, p := range c.pre {
+		fmt.Fprintf(h, "%d:", p.rv)
+		h.Write(p.script)
+		h.Write([]byte{'|'})
+	}
 	h.Write(c.script)
 	for _, a := range c.args {
 		h.Write([]byte(a.String()))
@@ -102,8 +107,15 @@ func main() {
 	defer o.Close()
 	pipe = startSpecPipe()
 
-	corpus := buildCorpus()
-	nGen := f.N(60000, 3000000)
+	corpus := append(append(buildCorpus(), multiCorpus()...), budgetCorpus()...)
+	// the coverage matrix follows the hand-written corpus (cases nCorpus .. nCorpus+len(matrix)-1)
+	nCorpus := len(corpus)
+	matrix := buildMatrix()
+	for _, mc := range matrix {
+		matrixRegister(mc)
+		corpus = append(corpus, mc.c)
+	}
+	nGen := f.N(50000, 3000000)
 	if f.Tier == "thorough" {
 		bigDiv = 12
 	}
@@ -124,6 +136,21 @@ func main() {
 		var ints []*big.Int
 		var iop opcode.Opcode
 		switch {
+		case k >= nCorpus && k < len(corpus):
+			// one matrix case: plain run, and wrapped in TRY if it faults (catchable or not)
+			mc := matrix[k-nCorpus]
+			res := emit(k, mc.c)
+			outcome := byte('H')
+			if !res.halt {
+				outcome = 'F'
+				if w := emit(k, wrapTry(mc.c)); w.halt {
+					outcome = 'C'
+				}
+			}
+			matrixRecord(mc, outcome, res.ran[mc.op])
+			o.Count("gen:matrix")
+			o.Seen(seenKey(mc.c))
+			continue
 		case k < len(corpus):
 			c = corpus[k]
 			o.Count("gen:corpus")
@@ -175,9 +202,12 @@ func main() {
 			case w < 80:
 				c = g.seqCase(r.Range(4, 14))
 				o.Count("gen:seq-long")
-			case w < 93:
+			case w < 90:
 				c = g.ctlCase()
 				o.Count("gen:control")
+			case w < 93:
+				c = g.multiCase()
+				o.Count("gen:multi-script")
 			case w < 97:
 				c = g.mutate(g.ctlCase())
 				o.Count("gen:control-mutated")
@@ -224,6 +254,8 @@ func main() {
 		}
 	}
 	pipe.finish()
+	// the coverage obligations are enforced on complete runs only (not on a single-case replay)
+	matrixFinish(f.Out, f.Only < 0)
 	never, neverFault := 0, 0
 	for i := 0; i < 256; i++ {
 		op := opcode.Opcode(i)
@@ -346,6 +378,9 @@ func (p *specPipe) send(l lineRec) {
 		if strings.HasPrefix(l.op, "run ") {
 			p.in.WriteString("runx") // extended answer (reference count, cycles) for the oracles
 			p.in.WriteString(strings.TrimPrefix(l.op, "run"))
+		} else if strings.HasPrefix(l.op, "runm ") {
+			p.in.WriteString("runmx")
+			p.in.WriteString(strings.TrimPrefix(l.op, "runm"))
 		} else {
 			p.in.WriteString(l.op)
 		}
